@@ -160,8 +160,10 @@ pub fn choose_weighted_bias(
                     }
                 }
             }
-            if c.onto_ep || c.corner_capture {
+            if c.onto_ep || c.corner_capture || c.ep {
                 48
+            } else if c.promo {
+                16
             } else if c.special() {
                 8
             } else {
